@@ -165,13 +165,15 @@ func genRuleSets(t *rapid.T) genCase {
 }
 
 func buildWorld(c genCase, order []string) (*vkit.World, map[string]bool, error) {
-	return buildWorldVia(c, order, false)
+	return buildWorldVia(c, order, false, false)
 }
 
 // buildWorldVia: with viaUpdate every rule set is first loaded in an earlier version - with one more rule at its end, which
 // shares the path expression of the rule set's first rule, has the opposite backtracking setting and a method no request of
 // this check comes with - and then updated to the version of the case.
-func buildWorldVia(c genCase, order []string, viaUpdate bool) (*vkit.World, map[string]bool, error) {
+// emptiedFirst: the repository has a past - a rule set was loaded and removed again, which left it empty - before the
+// rule sets of the case arrive
+func buildWorldVia(c genCase, order []string, viaUpdate, emptiedFirst bool) (*vkit.World, map[string]bool, error) {
 	conf := vkit.DefaultConf()
 	conf.Prototypes.Authenticators = []config.Mechanism{{ID: "anon", Type: vkit.ProbeType}}
 
@@ -188,6 +190,19 @@ func buildWorldVia(c genCase, order []string, viaUpdate bool) (*vkit.World, map[
 	}
 
 	flags := map[string]bool{}
+
+	if emptiedFirst {
+		pioneer := rulecfg.Rule{ID: "pioneer", Matcher: rulecfg.Matcher{Routes: []rulecfg.Route{{Path: "/pioneer/:x"}, {Path: "/a"}}},
+			Execute: []config.MechanismConfig{{"authenticator": "anon"}}}
+
+		if err = w.Load("pioneer", pioneer); err != nil {
+			return nil, nil, fmt.Errorf("load pioneer: %w", err)
+		}
+
+		if err = w.Delete("pioneer"); err != nil {
+			return nil, nil, fmt.Errorf("delete pioneer: %w", err)
+		}
+	}
 
 	for _, src := range order {
 		var rs []rulecfg.Rule
@@ -349,13 +364,17 @@ func TestRepositoryMatchesModel(t *testing.T) {
 			t.Fatalf("valid rule sets were rejected: %v\ncase: %+v", err, c.describe())
 		}
 
-		w2, _, err := buildWorld(c, perm)
+		// (the second repository may have been in use and emptied before)
+		emptiedFirst := rapid.Bool().Draw(t, "emptiedFirst")
+		vkit.S.LabelIf(emptiedFirst, "second_repository_was_emptied_before")
+
+		w2, _, err := buildWorldVia(c, perm, false, emptiedFirst)
 		if err != nil {
 			t.Fatalf("valid rule sets were rejected in order %v: %v\ncase: %+v", perm, err, c.describe())
 		}
 
 		// a third repository arrives at the rule sets through an update each
-		w3, _, err := buildWorldVia(c, order, true)
+		w3, _, err := buildWorldVia(c, order, true, false)
 		if err != nil {
 			t.Fatalf("valid rule sets were rejected when loaded in an earlier version and updated: %v\ncase: %+v", err, c.describe())
 		}
